@@ -33,6 +33,17 @@ CLAIMED = {
               "temporary-file write, and random faulty histories, compared with the model after every operation."),
         design="6/C19", technique="Lean 4 proof over all crash points/fault outcomes + fault/crash enumeration correspondence",
         note=PROOF_NOTE + " Crash emulation: the request runs in a forked child that calls os._exit inside the mock resource; kills between two Python statements outside the download phase are covered by the theorem only."),
+    "C20": dict(
+        text=("Lean 4 theorems over the executable model of tools/time_integration.py: for every order 1..8 and every number "
+              "of implicit points the coefficient-array stencil algorithm, evaluated in exact rationals, integrates every "
+              "polynomial below the order exactly over its step and sums to one (finite table by kernel evaluation + "
+              "linearity lemma); integrate starts at the start value, is linear in (signal, start) for every time axis, "
+              "uses the high-order stencil only inside the record and only where each of the last `order` adjacent steps "
+              "passed the 1% test (all n), and takes a trapezoid step wherever a jitter test fires or the stencil would "
+              "pass the end. Correspondence: numba implementation vs exact rational evaluation of the model on the same "
+              "doubles (stencils exhaustively, integrate on seeded grids/signals), plus oracles on the code."),
+        design="6/C20", technique="Lean 4 proof (kernel-evaluated rational table + induction over the loop) + exact-rational correspondence",
+        note=PROOF_NOTE + " Not shown: float rounding (tolerance 1e-10 of the natural scale), orders above 8."),
 }
 
 NOT_YET = "check not built yet in this session; see DESIGN.md section 9 (build order)"
